@@ -42,3 +42,15 @@ package planar
 //@   requires !isnan(point[0]) && !isnan(point[1]) && (forall i :: 0 <= i && i < len(mp) ==> len(mp[i]) >= 1)
 //@   ensures result == (exists i :: 0 <= i && i < len(mp) && PolygonContains(mp[i], point))
 //@   loop 1: invariant -1 <= rangeindex && rangeindex < len(mp) && (forall k :: 0 <= k && k <= rangeindex ==> !PolygonContains(mp[k], point))
+
+// ---------------------------------------------------------------- C10: planar ring area is the shoelace fold
+// shoe(r, k) = sum for i = 1..k of cross(r[i]-r[0], r[i+1]-r[0]), folded left to right from 0
+// (floats abstract: the same rounded operations in the same order, exact equality)
+//@ spec shoe(r orb.Ring, k int) float64 = ite(k < 1, 0.0, shoe(r, k-1) + ((r[k][0] - r[0][0]) * (r[k+1][1] - r[0][1]) - (r[k+1][0] - r[0][0]) * (r[k][1] - r[0][1])))
+//@ func ringCentroidArea(r) (c, a)
+//@   floats abstract
+//@   pure
+//@   ensures len(r) == 0 ==> same(a, 0.0)
+//@   ensures len(r) >= 1 ==> same(a, ite(shoe(r, len(r) - 2) == 0.0, 0.0, shoe(r, len(r) - 2) / 2.0))
+//@   ensures len(r) >= 1 && shoe(r, len(r) - 2) == 0.0 ==> same(c, r[0])
+//@   loop 1: invariant 1 <= i && (i <= len(r) - 1 || len(r) < 2) && same(area, shoe(r, i - 1)) && same(offsetX, r[0][0]) && same(offsetY, r[0][1])
